@@ -61,7 +61,23 @@ Section Shipped.
     wf_elements16 t (with_user a (elements_of_model m)) = true ->
     generate_file m dict0 a lines = Some (ref16 (with_user a (elements_of_model m)) t).
   Proof. intros Hw. destruct shipped_facts as [Hl Hg]. apply generate_is_ref; assumption. Qed.
+
+  Theorem shipped_consumed_user m (a : usertags) :
+    wf_elements16 t (with_user a (elements_of_model m)) = true -> user_lines_closed a t = true ->
+    generate_file m dict0 a lines = Some (ref16 (with_user a (elements_of_model m)) t)
+    /\ forallb no_generator_tag (flat_map (ref_item16 (with_user a (elements_of_model m))) t) = true.
+  Proof.
+    intros Hw Hc. destruct shipped_facts as [Hl Hg]. split; [apply generate_is_ref; assumption|].
+    apply (forallb_impl tagfree); [exact tagfree_no_generator_tag|]. apply ref_lines_tagfree_user; assumption.
+  Qed.
 End Shipped.
+
+Lemma shipped_consumed_user_flat lines l0 t m (a : usertags) :
+  shipped16 dict0 lines = Some (l0, t) ->
+  wf_elements16 t (with_user a (elements_of_model m)) = true -> user_lines_closed a t = true ->
+  generate_file m dict0 a lines = Some (ref16 (with_user a (elements_of_model m)) t)
+  /\ forallb no_generator_tag (flat_map (ref_item16 (with_user a (elements_of_model m))) t) = true.
+Proof. intros Hs Hw Hc. exact (shipped_consumed_user lines l0 t Hs m a Hw Hc). Qed.
 
 Lemma shipped_output_flat lines l0 t m (a : usertags) :
   shipped16 dict0 lines = Some (l0, t) -> no_user_lines t = true ->
